@@ -320,6 +320,40 @@ type libOuter struct {
 	M map[string]int64
 }
 
+// three levels of struct-mapped objects: the middle one declares no defaults of its own, the innermost
+// does; the top-level default of "m" is a map shared by every call
+type libMid struct {
+	I libInner `json:"i"`
+	C string   `json:"c"`
+}
+
+type libTop struct {
+	M libMid `json:"m"`
+	X int64  `json:"x"`
+}
+
+func libMidProps() map[string]*schema.PropertySchema {
+	return map[string]*schema.PropertySchema{
+		"i": prop(schema.NewStructMappedObjectSchema[libInner]("inner", libInnerProps()), nil),
+		"c": prop(schema.NewStringSchema(nil, nil, nil), nil),
+	}
+}
+
+func libTopProps(def string) map[string]*schema.PropertySchema {
+	return map[string]*schema.PropertySchema{
+		"m": prop(schema.NewStructMappedObjectSchema[libMid]("mid", libMidProps()), schema.PointerTo(def)),
+		"x": prop(schema.NewIntSchema(nil, nil, nil), schema.PointerTo(`3`)),
+	}
+}
+
+var libTopInputs = []any{
+	map[string]any{},
+	map[string]any{"x": 4},
+	map[string]any{"m": map[string]any{"c": "given"}},
+	map[string]any{"m": map[string]any{"i": map[string]any{"a": "2kB"}}},
+	map[string]any{"m": 5},
+}
+
 func prop(t schema.Type, def *string) *schema.PropertySchema {
 	return schema.NewPropertySchema(t, nil, false, nil, nil, nil, def, nil)
 }
@@ -360,7 +394,7 @@ var libInputs = []any{
 // hand-written schemas over the package-level unit definitions, struct-mapped objects with sub-object
 // defaults, references, typed objects, one-of, int enums with units
 func wlLibrary(g *hx.Gen, k int) workload {
-	variant := g.R.Intn(5)
+	variant := g.R.Intn(7)
 	idx := make([]int, k)
 	ops := make([]string, k)
 	for i := range idx {
@@ -402,6 +436,13 @@ func wlLibrary(g *hx.Gen, k int) workload {
 					inputs = append(inputs, map[string]any{"x": in, "y": "7 percent"})
 				}
 			}
+		case 5, 6: // three levels of struct-mapped sub-objects; the middle level has no defaults of its own
+			def := `{}`
+			if variant == 6 {
+				def = `{"c": "z"}`
+			}
+			s = schema.NewStructMappedObjectSchema[libTop]("top", libTopProps(def))
+			inputs = libTopInputs
 		default: // enum and map keyed by units
 			s = schema.NewMapSchema(
 				schema.NewIntEnumSchema(map[int64]*schema.DisplayValue{1024: nil, 1048576: nil}, schema.UnitBytes),
